@@ -92,6 +92,13 @@ def drive_graph(item):
         outs = [spell(p, root) for p in d["outs"]]
         rng.shuffle(ins)
         rng.shuffle(outs)
+        if variant % 4 == 1 and (ins or outs):
+            # the documented way of building up a target: create it, then add to its (list) inputs/outputs in place
+            t = Target(name=perm[d["name"]], inputs=list(ins[:-1]), outputs=list(outs[:-1]), options={}, working_dir=spell(d["wd"], root))
+            t.inputs.extend(ins[-1:])
+            t.outputs.extend(outs[-1:])
+            targets.append(t)
+            continue
         targets.append(Target(name=perm[d["name"]], inputs=defs.shape(ins, rng.choice(defs.SHAPES)), outputs=defs.shape(outs, rng.choice(defs.SHAPES)),
                               options={}, working_dir=spell(d["wd"], root)))
     old_cwd = os.getcwd()
@@ -341,7 +348,12 @@ def drive_wd(item):
     with open(os.path.join(above, "workflow.py"), "w") as fh:
         fh.write("from gwf import Workflow\ngwf = Workflow()\ngwf.target('decoy', inputs=[], outputs=[]) << 'true'\n")
     rel_f = os.path.join(os.path.basename(P), "workflow.py")
-    for cwd, args in ((P, []), (nested, []), (unrelated, ["-f", os.path.join(P, "workflow.py")]), (side, ["-f", rel_f])):
+    # ... and -f through a symbolic link to the project directory (relative paths still mean the files next to the
+    # workflow file, which other targets may name by their physical path)
+    link = os.path.join(above, "other", "plink")
+    os.symlink(P, link)
+    for cwd, args in ((P, []), (nested, []), (unrelated, ["-f", os.path.join(P, "workflow.py")]), (side, ["-f", rel_f]),
+                      (unrelated, ["-f", os.path.join(link, "workflow.py")]), (side, ["-f", os.path.join("plink", "..", os.path.basename(P), "workflow.py")])):
         r = sb.gwf(args + ["status"], cwd=cwd, sub=(variant % 2 == 0))
         table, bad = cli_defs.parse_status_table(r.stdout)
         table.pop("helpers", None)
